@@ -1293,6 +1293,7 @@ void ExtrapolatedSmootherGive::buildAscMatrices()
         // Circular Section //
         #pragma omp for nowait
         for (int circle_Asc_index = 0; circle_Asc_index < number_smoother_circles; circle_Asc_index++) {
+            VERIF_ITER(circle_Asc_index);
 
             /* Inner boundary circle */
             if (circle_Asc_index == 0) {
@@ -1350,6 +1351,7 @@ void ExtrapolatedSmootherGive::buildAscMatrices()
         // Radial Section //
         #pragma omp for nowait
         for (int radial_Asc_index = 0; radial_Asc_index < grid_.ntheta(); radial_Asc_index++) {
+            VERIF_ITER(radial_Asc_index);
 
             if (radial_Asc_index & 1) {
                 const int radial_tridiagonal_solver_index = radial_Asc_index / 2;
@@ -1401,22 +1403,26 @@ void ExtrapolatedSmootherGive::buildAscMatrices()
         {
             #pragma omp for
             for (int circle_task = 0; circle_task < num_circle_tasks; circle_task += 3) {
+                VERIF_ITER(circle_task);
                 int i_r = grid_.numberSmootherCircles() - circle_task - 1;
                 buildAscCircleSection(i_r);
             }
             #pragma omp for
             for (int circle_task = 1; circle_task < num_circle_tasks; circle_task += 3) {
+                VERIF_ITER(circle_task);
                 int i_r = grid_.numberSmootherCircles() - circle_task - 1;
                 buildAscCircleSection(i_r);
             }
             #pragma omp for nowait
             for (int circle_task = 2; circle_task < num_circle_tasks; circle_task += 3) {
+                VERIF_ITER(circle_task);
                 int i_r = grid_.numberSmootherCircles() - circle_task - 1;
                 buildAscCircleSection(i_r);
             }
 
             #pragma omp for
             for (int radial_task = 0; radial_task < num_radial_tasks; radial_task += 3) {
+                VERIF_ITER(radial_task);
                 if (radial_task > 0) {
                     int i_theta = radial_task + additional_radial_tasks;
                     buildAscRadialSection(i_theta);
@@ -1433,6 +1439,7 @@ void ExtrapolatedSmootherGive::buildAscMatrices()
             }
             #pragma omp for
             for (int radial_task = 1; radial_task < num_radial_tasks; radial_task += 3) {
+                VERIF_ITER(radial_task);
                 if (radial_task > 1) {
                     int i_theta = radial_task + additional_radial_tasks;
                     buildAscRadialSection(i_theta);
@@ -1452,6 +1459,7 @@ void ExtrapolatedSmootherGive::buildAscMatrices()
             }
             #pragma omp for
             for (int radial_task = 2; radial_task < num_radial_tasks; radial_task += 3) {
+                VERIF_ITER(radial_task);
                 int i_theta = radial_task + additional_radial_tasks;
                 buildAscRadialSection(i_theta);
             }
